@@ -123,6 +123,8 @@ type orun struct {
 	rnd   *rand.Rand
 	own   []int // indices of the cells stored in the struct itself
 	clean []byte
+
+	foreignHit bool // a Putt with a foreign container type went through
 }
 
 // RunOptics executes the compiled requests of every generated shape.  VERIF_PROP selects the judge:
@@ -563,9 +565,19 @@ func (o *orun) throughPointer(ri int, q *OReq, e *oReq, i int) {
 // refused comes from TLC's table; the generated code supplies one argument per class.
 func (o *orun) foreign(ri int, q *OReq, e *oReq) {
 	s := o.s
+	if o.foreignHit {
+		return // a reflector of this shape already wrote through a foreign pointer: do not let it scribble any further
+	}
 	args := s.Foreign()
+	// arguments that own guarded memory first: if the reflector accepts one of them, the write lands where it can be seen
+	rank := map[string]int{"twin": 1, "twin-tags": 2, "defined": 3, "other": 4, "first-field": 5, "value": 6, "nil": 7, "uintptr": 8, "unsafe": 9, "ptr-ptr": 10}
+	classes := append(o.c.Foreign[:0:0], o.c.Foreign...)
+	sort.SliceStable(classes, func(a, b int) bool { return rank[classes[a].Class] < rank[classes[b].Class] })
 	for i := range q.PutAny {
-		for _, fc := range o.c.Foreign {
+		for _, fc := range classes {
+			if o.foreignHit {
+				break
+			}
 			if fc.Want != "panic" {
 				continue // "put" is the reflector's own *T (exercised as a lens above); "any": a nil *T is not dereferenced here
 			}
@@ -590,6 +602,7 @@ func (o *orun) foreign(ri int, q *OReq, e *oReq) {
 				o.r.stats["foreign-calls"]++
 				if !p {
 					o.r.pviol("reflector-accepts-foreign-type", s.ID, info(fmt.Sprintf("Putt(%T (%s), value) did not panic", a.Arg, fc.Class)))
+					o.foreignHit = true
 					break
 				}
 			}
